@@ -258,11 +258,12 @@ def tasks(tier):
     t = [('contracts.c04', 'task_restrict', dict(sc=s)) for s in range(7)]
     t.append(('contracts.c04', 'task_restrict_weights', {}))
     t += [('contracts.c04', 'task_restrict_model', dict(sc=s)) for s in range(7)]
-    from . import c04_control, c04_prolong, c04_rgp, c04_wf
+    from . import c04_control, c04_prolong, c04_rgp, c04_wf, c04_npcheck
     t += c04_control.tasks(tier)
     t += c04_prolong.tasks(tier)
     t += c04_rgp.tasks(tier)
     t += c04_wf.tasks(tier)
+    t += c04_npcheck.tasks(tier)
     return t
 
 
